@@ -356,6 +356,27 @@ func tampers(st *key_storage.Storage) []tamper {
 				}})
 			}
 		}
+		// alterations an ASCII-armor reader would not mind (seed c20i): the stored blob is authenticated byte for
+		// byte, so edge and inner whitespace count as alterations too
+		for _, ws := range []struct{ name, pre, post string }{{"append-newline", "", "\n"}, {"append-space", "", " "}, {"append-crlf", "", "\r\n"}, {"append-tab", "", "\t"}, {"prepend-newline", "\n", ""}, {"prepend-space", " ", ""}, {"wrap-newlines", "\n", "\n"}} {
+			id, ws := id, ws
+			out = append(out, tamper{name: fmt.Sprintf("blob %s whitespace %s", id, ws.name), mustDetect: true, mutate: func(s *key_storage.Storage) bool {
+				b := s.KeySlots[id].EncryptedKey
+				s.KeySlots[id].EncryptedKey = append(append([]byte(ws.pre), b...), ws.post...)
+				return true
+			}})
+		}
+		{
+			id, mid := id, (body+end)/2
+			out = append(out, tamper{name: fmt.Sprintf("blob %s whitespace inner-newline", id), mustDetect: true, mutate: func(s *key_storage.Storage) bool {
+				b := s.KeySlots[id].EncryptedKey
+				if mid <= 0 || mid >= len(b) {
+					return false
+				}
+				s.KeySlots[id].EncryptedKey = append(append(bytes.Clone(b[:mid]), '\n'), b[mid:]...)
+				return true
+			}})
+		}
 		id := id
 		out = append(out, tamper{name: "remove slot " + id, mustDetect: true, mutate: func(s *key_storage.Storage) bool {
 			if len(s.KeySlots) < 2 {
